@@ -46,7 +46,12 @@ struct Gen {
 impl Gen {
     fn inst(&mut self) -> dr::Instruction {
         self.next += 1;
-        dr::Instruction::new(spirv::Op::Nop, None, Some(self.next), vec![dr::Operand::LiteralBit32(self.next ^ 0x5555)])
+        // any opcode anywhere: a dr::Module is plain data, the traversals and the assembler must not look at it
+        const OPS: [spirv::Op; 12] = [
+            spirv::Op::Nop, spirv::Op::Return, spirv::Op::Label, spirv::Op::Kill, spirv::Op::Function, spirv::Op::FunctionEnd,
+            spirv::Op::Capability, spirv::Op::Line, spirv::Op::Phi, spirv::Op::Branch, spirv::Op::TypeVoid, spirv::Op::Unreachable,
+        ];
+        dr::Instruction::new(OPS[(self.next as usize * 7 + 3) % OPS.len()], None, Some(self.next), vec![dr::Operand::LiteralBit32(self.next ^ 0x5555)])
     }
     fn list(&mut self, n: usize) -> Vec<dr::Instruction> {
         (0..n).map(|_| self.inst()).collect()
@@ -96,6 +101,10 @@ fn build(mask: u32, fns: &[&FnSpec]) -> dr::Module {
     if mask & (1 << 11) != 0 {
         let mut h = dr::ModuleHeader::new(999);
         h.set_version(1, 3);
+        // every header word arbitrary
+        h.magic_number = 0x1111_1111;
+        h.generator = 0x2222_0003;
+        h.reserved_word = 0x4444_4444;
         m.header = Some(h);
     }
     for s in fns {
